@@ -528,7 +528,7 @@ where
             Op::ForEach(n) | Op::EnumForEach(n) | Op::Fold(n) => {
                 sh::begin_call();
                 let expected = Cell::new(0u64);
-                let mut on_item = |idx: Option<usize>, x: I::Item| -> u64 {
+                let on_item = |idx: Option<usize>, x: I::Item| -> u64 {
                     cx.closure_entry();
                     let s = obs(&x);
                     let w = match cx.deliver_pos(tid, &what, idx, Some(&s)) {
